@@ -11,6 +11,26 @@ open GrVerif.Vm GrVerif.Seg GrVerif.Action GrVerif.Gen.Vm
 /-- every pass of the range has the loop limit `Pass::readPass` gives it (`if (m_iMaxLoop < 1) m_iMaxLoop = 1;`) -/
 def LimitsOK (passes : Array PassT) (lo hi : Nat) : Prop := ∀ k, k < hi - lo → 1 ≤ (passes.getD (lo + k) default).maxLoop
 
+theorem runPassDir_within_bound (p : PassT) (hL : 1 ≤ p.maxLoop) (c : Ctx) (fuel : Nat) (h : WF c.seg) {c' : Ctx}
+    (e : runPassDir p c fuel = .ok (some c')) : c'.vExceeded = c.vExceeded := by
+  unfold runPassDir at e
+  split at e
+  · cases e; rfl
+  · simp only [] at e
+    split at e
+    · exact runPass_within_bound p hL (c.withSeg (c.seg.reverseSlots (isMark c c.seg))) fuel (reverse_wf h _) e
+    · exact runPass_within_bound p hL c fuel h e
+
+theorem runPassDir_error (p : PassT) (hL : 1 ≤ p.maxLoop) (c : Ctx) (fuel : Nat) (h : WF c.seg) {w : String}
+    (e : runPassDir p c fuel = .error w) : ∃ c s, findNDoRule p c s = .error w := by
+  unfold runPassDir at e
+  split at e
+  · cases e
+  · simp only [] at e
+    split at e
+    · exact runPass_error p hL (c.withSeg (c.seg.reverseSlots (isMark c c.seg))) fuel (reverse_wf h _) e
+    · exact runPass_error p hL c fuel h e
+
 theorem runRange_fold (passes : Array PassT) (lo fuel : Nat) (limit : Int) (b : Bool) :
     ∀ (ks : List Nat), (∀ k ∈ ks, 1 ≤ (passes.getD (lo + k) default).maxLoop) →
     ∀ (acc : Except String (Option Ctx)),
@@ -18,7 +38,7 @@ theorem runRange_fold (passes : Array PassT) (lo fuel : Nat) (limit : Int) (b : 
       let r := ks.foldl (fun (acc : Except String (Option Ctx)) k =>
         match acc with
         | .ok (some c1) =>
-          (match runPass (passes.getD (lo + k) default) c1 fuel with
+          (match runPassDir (passes.getD (lo + k) default) c1 fuel with
            | .ok (some c2) => if c2.seg.numGlyphs > 0 ∧ c2.seg.numGlyphs > limit then .ok none else .ok (some c2)
            | o => o)
         | o => o) acc
@@ -41,7 +61,7 @@ theorem runRange_fold (passes : Array PassT) (lo fuel : Nat) (limit : Int) (b : 
           split at hy
           · cases hy
           · cases hy
-            exact ⟨runPass_spec _ c1 fuel w1 hp, (runPass_within_bound _ hLk c1 fuel w1 hp).trans v1⟩
+            exact ⟨runPassDir_spec _ c1 fuel w1 hp, (runPassDir_within_bound _ hLk c1 fuel w1 hp).trans v1⟩
         · rename_i o hno
           exact absurd hy (by intro hh; exact hno y (by rw [hh]))
       · rename_i o hno
@@ -53,7 +73,7 @@ theorem runRange_fold (passes : Array PassT) (lo fuel : Nat) (limit : Int) (b : 
         split at hw
         · split at hw <;> cases hw
         · rename_i o hno
-          obtain ⟨c', s', hh⟩ := runPass_error _ hLk c1 fuel w1 hw
+          obtain ⟨c', s', hh⟩ := runPassDir_error _ hLk c1 fuel w1 hw
           exact ⟨_, c', s', hh⟩
       · exact ha.2 w hw
 
@@ -73,9 +93,9 @@ theorem runRange_within_bound (passes : Array PassT) (c : Ctx) (lo hi fuel : Nat
 /-- **C02, the pipeline**: for every font whose passes carry the loop limit the loader gives them, and every text, the rule
 loops of all passes stay within `maxRuleLoop × (slots + insertion budget + 2)` iterations (the model's loop report never
 says "exceeded"), … -/
-theorem shape_within_bound (font : Font) (text : List Nat) (fuel : Nat) (hi : font.ipos ≤ font.passes.size)
+theorem shape_within_bound (font : Font) (text : List Nat) (fuel : Nat) (dir : Nat) (hi : font.ipos ≤ font.passes.size)
     (hL : ∀ k, k < font.passes.size → 1 ≤ (font.passes.getD k default).maxLoop) {c : Ctx} {ci : List Assoc.CI}
-    (e : shape font text fuel = .ok (some (c, ci))) : c.vExceeded = false := by
+    (e : shape font text fuel dir = .ok (some (c, ci))) : c.vExceeded = false := by
   have hL1 : LimitsOK font.passes 0 font.ipos := fun k hk => hL _ (by omega)
   have hL2 : LimitsOK font.passes font.ipos font.passes.size := fun k hk => hL _ (by omega)
   unfold shape at e
@@ -86,8 +106,8 @@ theorem shape_within_bound (font : Font) (text : List Nat) (fuel : Nat) (hi : fo
     · cases e
     · cases e
     · rename_i c1 h1
-      have w1 : WF c1.seg := runRange_spec _ _ _ _ _ (initSeg_wf font text) h1
-      have v1 : c1.vExceeded = false := (runRange_within_bound _ _ _ _ fuel (initSeg_wf font text) hL1).1 c1 h1
+      have w1 : WF c1.seg := runRange_spec _ _ _ _ _ (initSeg_wf font text dir) h1
+      have v1 : c1.vExceeded = false := (runRange_within_bound _ _ _ _ fuel (initSeg_wf font text dir) hL1).1 c1 h1
       split at e
       · cases e
       · rename_i seg' ci' hre
@@ -102,9 +122,9 @@ theorem shape_within_bound (font : Font) (text : List Nat) (fuel : Nat) (hi : fo
 
 /-- … and the fuel of the model's recursion is never what ends a run: an error of `shape` comes from a rule application
 (a fault the model reports for an access the C++ does not guard, or code the decoder refuses) or from `associateChars` -/
-theorem shape_error (font : Font) (text : List Nat) (fuel : Nat) (hi : font.ipos ≤ font.passes.size)
+theorem shape_error (font : Font) (text : List Nat) (fuel : Nat) (dir : Nat) (hi : font.ipos ≤ font.passes.size)
     (hL : ∀ k, k < font.passes.size → 1 ≤ (font.passes.getD k default).maxLoop) {w : String}
-    (e : shape font text fuel = .error w) :
+    (e : shape font text fuel dir = .error w) :
     (∃ p c s, findNDoRule p c s = .error w) ∨ w = "associateChars: char-info access out of range" := by
   have hL1 : LimitsOK font.passes 0 font.ipos := fun k hk => hL _ (by omega)
   have hL2 : LimitsOK font.passes font.ipos font.passes.size := fun k hk => hL _ (by omega)
@@ -114,10 +134,10 @@ theorem shape_error (font : Font) (text : List Nat) (fuel : Nat) (hi : font.ipos
   · split at e
     · rename_i w1 h1
       cases e
-      exact .inl ((runRange_within_bound _ _ _ _ fuel (initSeg_wf font text) hL1).2 w h1)
+      exact .inl ((runRange_within_bound _ _ _ _ fuel (initSeg_wf font text dir) hL1).2 w h1)
     · cases e
     · rename_i c1 h1
-      have w1 : WF c1.seg := runRange_spec _ _ _ _ _ (initSeg_wf font text) h1
+      have w1 : WF c1.seg := runRange_spec _ _ _ _ _ (initSeg_wf font text dir) h1
       split at e
       · cases e; exact .inr rfl
       · rename_i seg' ci' hre
